@@ -16,8 +16,23 @@
    exhaustion - for any tables that pass the decidable condition gob_dec_safe (no read statement calls
    GobDecode through a nil *Endpoints), instantiated on the tables regenerated on this run.
    C04_gob_fuel_sufficient is the fuel lemma; C04_gob_nil_receiver_refuted shows the condition is not
-   vacuous. *)
+   vacuous.
+   LEAF READERS (last block; Model/XsdRead.v, Proofs/XsdReadP.v): xsd.Unmarshal of go-xsd-duration as the code is, on
+   ALL byte strings, every index read an explicit Panic outcome.  C04_duration_reader_total: parseDuration (the recover
+   wrapper of decoding_json.go) and JSONGetDuration return on every byte string; C04_xsd_unmarshal_panics_exactly:
+   xsd.Unmarshal itself panics on the one-byte text "-" and on no other byte string (for the maintainer of the xsd
+   package: the read of data[pos] behind the sign has no length test; nothing else in Unmarshal / loadUintVal /
+   parseTagWithValue can index out of range); C04_duration_reader_pinned_refuted: the pinned JSONGetDuration (no
+   recover) panics exactly there.  Compared with the real xsd.Unmarshal and the real JSONGetDuration on every text of up
+   to four symbols over - P T 1 . S D H M Y and on edited durations (Cases_C04_xsd).
+   The instant reader (time.Time.UnmarshalText, which JSONGetTime calls): Model/JsonDec.v read_rfc3339 is a total
+   function on all byte strings saying which texts go1.23 accepts and the instant read (Cases_C04_time: every cut,
+   replacement, insertion and deletion of six instants); that the time package does not panic is TRUSTED (Go standard
+   library; run natively on the same texts with recover).  C04_leaf_readers_never_abstain: with the two readers the
+   decoder model answers on every text in a duration / instant position. *)
 From AP.Model Require Import Prelude Bytes Vocab Json Text JsonDec JsonCodec TextUnm.
+From AP.Model Require XsdRead.
+From AP.Proofs Require XsdReadP XsdAgreeP TimeAgreeP.
 From AP.Model Require Import Layout Dispatch GobTables Gob GobInst GobTotal.
 From AP.Proofs Require Import ParseTotalP C04P GobWireP.
 From AP.Gen Require GobR.
@@ -94,4 +109,88 @@ Example C04_gob_example :
   run_gob genv (GEKind KActor) (WList [bad]) = Err /\ oclass_of (run_gob genv GEItems (WList [bad; bad])) = OcError /\
   oclass_of (run_gob genv GEItem (WList [bad; bad])) = OcValue /\
   forallb (fun ep => returnsb (run_gob genv ep bad)) all_gob_eps = true.
+Proof. vm_compute. repeat split; reflexivity. Qed.
+
+(* ---------------------------------------------------------------- the leaf readers on malformed text *)
+(* parseDuration (xsd.Unmarshal under recover) and JSONGetDuration return on EVERY byte string: no panic outcome, no
+   fuel exhaustion *)
+Theorem C04_duration_reader_total :
+  forall s : bytes, (exists r, XsdRead.parse_duration s = Ok r) /\ (exists d, XsdRead.json_get_duration s = Ok d).
+Proof. intros s. split; [exact (XsdReadP.parse_duration_total s)|exact (XsdReadP.json_get_duration_total s)]. Qed.
+
+(* what it returns: the value when xsd.Unmarshal returned one, "no duration" when it returned an error or panicked *)
+Theorem C04_duration_reader_spec :
+  forall s : bytes, XsdRead.parse_duration s = Ok (match XsdRead.xsd_unmarshal s with Ok d => Some d | _ => None end).
+Proof. exact XsdReadP.parse_duration_spec. Qed.
+
+(* xsd.Unmarshal itself: it panics on EXACTLY one byte string, the lone minus sign (an index read out of range);
+   on every other byte string it returns a value or an error *)
+Theorem C04_xsd_unmarshal_panics_exactly :
+  forall data : bytes,
+    ((exists p, XsdRead.xsd_unmarshal data = Panic p) <-> data = B "-") /\
+    (forall p, XsdRead.xsd_unmarshal data = Panic p -> p = IndexOutOfRange) /\
+    (data <> B "-" -> (exists d, XsdRead.xsd_unmarshal data = Ok d) \/ XsdRead.xsd_unmarshal data = Err).
+Proof.
+  intros data. split; [exact (XsdReadP.xsd_unmarshal_panic_iff data)|]. split.
+  - intros p H. exact (proj1 (XsdReadP.xsd_unmarshal_panic_kind data p H)).
+  - exact (XsdReadP.xsd_unmarshal_returns data).
+Qed.
+
+(* the loop of Unmarshal stops with at most one byte left unread: the test "data contains more bytes than we are able
+   to parse" behind the loop can never fire, and one stray byte behind the last designator is ignored *)
+Theorem C04_xsd_trailing_byte :
+  (forall f it s d d' rest, XsdRead.xsd_loop f it s d = Ok (d', rest) -> (length rest <= 1)%nat) /\
+  XsdRead.xsd_unmarshal (B "P1YX") = XsdRead.xsd_unmarshal (B "P1Y") /\ XsdRead.xsd_unmarshal (B "P1YXX") = Err.
+Proof. split; [exact XsdReadP.xsd_loop_rest|]. split; vm_compute; reflexivity. Qed.
+
+(* the pinned JSONGetDuration called xsd.Unmarshal without recover: {"duration":"-"} panicked in every JSON decoder *)
+Theorem C04_duration_reader_pinned_refuted :
+  XsdRead.json_get_duration_pinned (B "-") = Panic IndexOutOfRange /\ XsdRead.json_get_duration (B "-") = Ok 0%Z /\
+  (forall s, (exists p, XsdRead.json_get_duration_pinned s = Panic p) <-> s = B "-").
+Proof. split; [reflexivity|]. split; [reflexivity|]. exact XsdReadP.json_get_duration_pinned_panic_iff. Qed.
+
+(* on the texts of the xsd:duration grammar the total reader is the grammar reader (Proofs/XsdAgreeP.v) *)
+Theorem C04_duration_reader_agrees_with_grammar :
+  forall s d, xsd_duration_grammar s = Some d -> parse_xsd_duration s = Some d.
+Proof. exact XsdAgreeP.xsd_grammar_agrees. Qed.
+
+(* what the code does that the grammar does not say - each line compared with the real function on every run *)
+Example C04_duration_reader_example :
+  XsdRead.xsd_unmarshal (B "P1Y2M3DT4H5M6.5S") = Ok 36216306500000000%Z /\
+  XsdRead.xsd_unmarshal (B "-PT0.1S") = Ok (-100000001)%Z /\
+  XsdRead.xsd_unmarshal (B "PY") = Ok 0%Z /\ XsdRead.xsd_unmarshal (B "PT1,5S") = Ok 0%Z /\ XsdRead.xsd_unmarshal (B "P1H") = Ok 0%Z /\
+  XsdRead.xsd_unmarshal (B "P1S") = Ok 1000000000%Z /\ XsdRead.xsd_unmarshal (B "PT1HT1M") = Ok 3660000000000%Z /\
+  XsdRead.xsd_unmarshal (B "P300Y") = Err /\ XsdRead.xsd_unmarshal (B "P600Y") = Ok 8295926290448384%Z /\
+  XsdRead.xsd_unmarshal (B "P-1Y") = Err /\ XsdRead.xsd_unmarshal (B "P-0Y") = Ok 0%Z /\ XsdRead.xsd_unmarshal (B "PT9223373000S") = Err /\
+  XsdRead.xsd_unmarshal (B "P") = Err /\ XsdRead.xsd_unmarshal (B "-P") = Err /\ XsdRead.xsd_unmarshal (B "PT") = Err /\ XsdRead.xsd_unmarshal [] = Err /\
+  XsdRead.parse_duration (B "-") = Ok None /\ XsdRead.parse_duration (B "-P1D") = Ok (Some (-86400000000000)%Z).
+Proof. vm_compute. repeat split; reflexivity. Qed.
+
+(* the instant reader: on the whole-second instants of the fixed width the total reader is the former one *)
+Theorem C04_instant_reader_agrees_with_grammar :
+  forall s r, rfc3339_grammar s = Some r -> parse_rfc3339 s = Some r.
+Proof. exact TimeAgreeP.rfc3339_grammar_agrees. Qed.
+
+(* the decoder model has an answer for EVERY text in a duration or an instant position (it used to abstain - None -
+   outside the two grammars, which left documents with malformed leaf texts outside the correspondence of C05 / C01) *)
+Theorem C04_leaf_readers_never_abstain :
+  forall s : bytes, (exists d, parse_xsd_duration s = Some d) /\ (exists t, parse_rfc3339 s = Some t).
+Proof. intros s. split; [eexists; reflexivity|]. unfold parse_rfc3339. destruct s; eexists; reflexivity. Qed.
+
+(* go1.23 is laxer than RFC 3339: a one-digit hour, a comma for the decimal point, digits beyond the ninth dropped, offset
+   24:60; and what it refuses: 29 February 2023, hour 24, a point without a digit, offset hour 25, a lower-case t *)
+Example C04_instant_reader_example :
+  read_rfc3339 (B "2023-06-15T3:59:59,5Z") = Some {| vsecs := 1686801599; vnanos := 500000000; voff := 0 |} /\
+  read_rfc3339 (B "2023-06-15T23:59:59.123456789999+24:60") = Some {| vsecs := 1686783599; vnanos := 123456789; voff := 0 |} /\
+  read_rfc3339 (B "2023-02-29T00:00:00Z") = None /\ read_rfc3339 (B "2023-06-15T24:00:00Z") = None /\
+  read_rfc3339 (B "2023-06-15T23:59:59.Z") = None /\ read_rfc3339 (B "2023-06-15T23:59:59+25:00") = None /\
+  read_rfc3339 (B "2023-06-15t23:59:59Z") = None /\ parse_rfc3339 (B "-") = Some None /\ parse_xsd_duration (B "-") = Some 0%Z.
+Proof. vm_compute. repeat split; reflexivity. Qed.
+
+(* the hypotheses of the two agreement theorems hold of non-trivial texts (and the conclusions are what the readers give) *)
+Example C04_grammar_hypotheses_example :
+  xsd_duration_grammar (B "-P1DT2H3M4.5S") = Some (-93784500000000)%Z /\ parse_xsd_duration (B "-P1DT2H3M4.5S") = Some (-93784500000000)%Z /\
+  rfc3339_grammar (B "2023-05-10T23:59:59+01:00") = Some (Some {| vsecs := 1683759599; vnanos := 0; voff := 0 |}) /\
+  parse_rfc3339 (B "2023-05-10T23:59:59+01:00") = Some (Some {| vsecs := 1683759599; vnanos := 0; voff := 0 |}) /\
+  xsd_duration_grammar (B "P1YX") = None /\ rfc3339_grammar (B "2023-05-10T3:59:59Z") = None.
 Proof. vm_compute. repeat split; reflexivity. Qed.
